@@ -5,7 +5,8 @@
    against ALL REAL monotone competitor sequences u. *)
 From Coq Require Import QArith Qreals Reals List.
 Import ListNotations.
-From MD Require Import lib.QLists model.Isotonic theory.Optimal theory.IsoOptimal proofs.IsoProps.
+From MD Require Import lib.QLists model.Isotonic theory.Optimal theory.IsoOptimal proofs.IsoProps
+  theory.MaxMin proofs.IsoMaxMin.
 
 Theorem C01_total : forall y weights inc lvl, y <> [] -> valid_w y weights ->
   exists x r, isotonic_regression y weights inc IFmean lvl = IOk (x, r).
@@ -36,7 +37,48 @@ Theorem C01_totals : forall y weights inc lvl x r, y <> [] -> valid_w y weights 
 Proof. exact iso_mean_totals. Qed.
 Print Assumptions C01_totals.
 
-(* Full statement of the max-min formula (kept visible; not proved - uniqueness above
-   pins the same object down, and the search judge harness/judge.py evaluates the
-   formula exactly on every disagreeing case):
-     x_i == max_{a<=i} min_{b>=i} wmean (y[a..b])                                  *)
+(* the max-min formula: seg l a b = l[a..b] (both ends inclusive, 0-based; theory/MaxMin.v
+   seg_nth, seg_length), data y weights = the (y_i, w_i) pairs.  First the formula spelled
+   with quantifiers, then with the executable fold maxmin (and the equal min-max). *)
+Theorem C01_maxmin : forall y weights lvl x r, y <> [] -> valid_w y weights ->
+  isotonic_regression y weights true IFmean lvl = IOk (x, r) ->
+  forall i, (i < length y)%nat ->
+    ((forall a, (a <= i)%nat -> exists b, (i <= b < length y)%nat /\
+         (wmean (seg (data y weights) a b) <= nth i x 0)%Q) /\
+     (exists a, (a <= i)%nat /\ forall b, (i <= b < length y)%nat ->
+         (nth i x 0 <= wmean (seg (data y weights) a b))%Q)) /\
+    (nth i x 0 == maxmin wmean (data y weights) i)%Q /\
+    (nth i x 0 == minmax wmean (data y weights) i)%Q.
+Proof. exact iso_mean_maxmin. Qed.
+Print Assumptions C01_maxmin.
+
+(* decreasing fit: the mirrored formula  x_i == min_{a<=i} max_{b>=i} == max_{b>=i} min_{a<=i} *)
+Theorem C01_maxmin_decreasing : forall y weights lvl x r, y <> [] -> valid_w y weights ->
+  isotonic_regression y weights false IFmean lvl = IOk (x, r) ->
+  forall i, (i < length y)%nat ->
+    ((exists a, (a <= i)%nat /\ forall b, (i <= b < length y)%nat ->
+         (wmean (seg (data y weights) a b) <= nth i x 0)%Q) /\
+     (forall a, (a <= i)%nat -> exists b, (i <= b < length y)%nat /\
+         (nth i x 0 <= wmean (seg (data y weights) a b))%Q)) /\
+    (nth i x 0 == minmax_dec wmean (data y weights) i)%Q /\
+    (nth i x 0 == maxmin_dec wmean (data y weights) i)%Q.
+Proof. exact iso_mean_maxmin_dec. Qed.
+Print Assumptions C01_maxmin_decreasing.
+
+(* what the fold is *)
+Theorem C01_maxmin_def : forall (A : Type) (T : list A -> Q) l i, maxmin T l i =
+  lmax (map (fun a => lmin (map (fun b => T (seg l a b)) (seq i (length l - i)))) (seq 0 (S i))).
+Proof. exact maxmin_def. Qed.
+Print Assumptions C01_maxmin_def.
+Theorem C01_lmax_spec : forall xs, xs <> [] ->
+  (exists x, In x xs /\ (lmax xs == x)%Q) /\ forall x, In x xs -> (x <= lmax xs)%Q.
+Proof. exact lmax_spec. Qed.
+Print Assumptions C01_lmax_spec.
+Theorem C01_lmin_spec : forall xs, xs <> [] ->
+  (exists x, In x xs /\ (lmin xs == x)%Q) /\ forall x, In x xs -> (lmin xs <= x)%Q.
+Proof. exact lmin_spec. Qed.
+Print Assumptions C01_lmin_spec.
+Theorem C01_seg_nth : forall (A : Type) (d : A) (l : list A) a b k, (a + k <= b)%nat ->
+  nth k (seg l a b) d = nth (a + k) l d.
+Proof. exact seg_nth. Qed.
+Print Assumptions C01_seg_nth.
